@@ -227,3 +227,28 @@ func init() {
 		}},
 	)
 }
+
+func init() {
+	// C03: a comparison whose operand is itself a constant expression, in a constant declaration
+	verifProtocolScenarios = append(verifProtocolScenarios,
+		verifScenario{"C03/interp.Interpreter.cfg/case:binaryExpr#4/pre:guard@fixUntyped", func() (bool, string) {
+			out, err := verifOutput("package main\nimport \"fmt\"\nconst m = 2*3 == 6\nconst k = (1 << 3) == 8\nconst s = \"a\"+\"b\" == \"ab\"\nfunc main() { fmt.Println(m, k, s) }")
+			want := "true true true\n"
+			return out != want || err != nil, fmt.Sprintf("output %q (err %v), compiled Go prints %q", out, err, want)
+		}},
+		verifScenario{"C03/interp.Interpreter.cfg/case:binaryExpr#1/*", func() (bool, string) {
+			out, err := verifOutput("package main\nimport \"fmt\"\nconst j = -(2 + 1) < 0\nconst m = 2*3 == 6\nfunc main() { fmt.Println(j, m) }")
+			want := "true true\n"
+			return out != want || err != nil, fmt.Sprintf("output %q (err %v), compiled Go prints %q", out, err, want)
+		}},
+	)
+}
+
+func init() {
+	// C03: comparisons of typed constants are constants
+	verifProtocolScenarios = append(verifProtocolScenarios, verifScenario{"C03/interp.compareConst/post:typed-*", func() (bool, string) {
+		out, err := verifOutput("package main\nimport (\"fmt\"; \"time\")\nconst a int = 3\nconst c = a == 3\nconst s string = \"x\"\nconst e = s == \"x\"\ntype T int\nconst t T = 3\nconst ne = t != 3\nconst d = time.Second > time.Millisecond\nfunc main() { fmt.Println(c, e, ne, d) }")
+		want := "true true false true\n"
+		return out != want || err != nil, fmt.Sprintf("output %q (err %v), compiled Go prints %q", out, err, want)
+	}})
+}
